@@ -129,8 +129,9 @@ impl<'u, 'de> serde::Deserializer<'de> for &'u mut CookieDeserializer<'de> {
     /// when the visitor visits value of unkown key
     fn deserialize_ignored_any<V>(self, visitor: V) -> Result<V::Value, Self::Error>
     where V: serde::de::Visitor<'de> {
-        #[cfg(debug_assertions)] {
-            assert!(matches!(self.side, ParsingSide::Value));
+        if self.side != ParsingSide::Value {
+            /* e.g. a struct or a map as a field, or a scalar as the whole input */
+            return Err(serde::de::Error::custom("unsupported structure for this format"))
         }
         let _ = self.next_section();
 
@@ -142,8 +143,9 @@ impl<'u, 'de> serde::Deserializer<'de> for &'u mut CookieDeserializer<'de> {
     #[inline(always)]
     fn deserialize_map<V>(self, visitor: V) -> Result<V::Value, Self::Error>
     where V: serde::de::Visitor<'de> {
-        #[cfg(debug_assertions)] {
-            assert!(self.side == ParsingSide::Name);
+        if self.side != ParsingSide::Name {
+            /* e.g. a struct or a map as a field, or a scalar as the whole input */
+            return Err(serde::de::Error::custom("unsupported structure for this format"))
         }
 
         visitor.visit_map(AmpersandSeparated::new(self))
@@ -177,9 +179,10 @@ impl<'u, 'de> serde::Deserializer<'de> for &'u mut CookieDeserializer<'de> {
             Here we don't put
 
             ```
-            #[cfg(debug_assertions)] {
-                assert!(self.side == ParsingSide::Name);
-            }
+            if self.side != ParsingSide::Name {
+            /* e.g. a struct or a map as a field, or a scalar as the whole input */
+            return Err(serde::de::Error::custom("unsupported structure for this format"))
+        }
             ```
             because `deserialize_identifier` can be called by value-place enums
             like `enum Gender { Male, Female, Other }`.
@@ -285,8 +288,9 @@ impl<'u, 'de> serde::Deserializer<'de> for &'u mut CookieDeserializer<'de> {
 
     fn deserialize_bytes<V>(self, visitor: V) -> Result<V::Value, Self::Error>
     where V: serde::de::Visitor<'de> {
-        #[cfg(debug_assertions)] {
-            assert!(self.side == ParsingSide::Value);
+        if self.side != ParsingSide::Value {
+            /* e.g. a struct or a map as a field, or a scalar as the whole input */
+            return Err(serde::de::Error::custom("unsupported structure for this format"))
         }
 
         match self.next_section()? {
@@ -296,8 +300,9 @@ impl<'u, 'de> serde::Deserializer<'de> for &'u mut CookieDeserializer<'de> {
     }
     fn deserialize_byte_buf<V>(self, visitor: V) -> Result<V::Value, Self::Error>
     where V: serde::de::Visitor<'de> {
-        #[cfg(debug_assertions)] {
-            assert!(self.side == ParsingSide::Value);
+        if self.side != ParsingSide::Value {
+            /* e.g. a struct or a map as a field, or a scalar as the whole input */
+            return Err(serde::de::Error::custom("unsupported structure for this format"))
         }
 
         self.deserialize_bytes(visitor)
@@ -305,8 +310,9 @@ impl<'u, 'de> serde::Deserializer<'de> for &'u mut CookieDeserializer<'de> {
 
     fn deserialize_bool<V>(self, visitor: V) -> Result<V::Value, Self::Error>
     where V: serde::de::Visitor<'de> {
-        #[cfg(debug_assertions)] {
-            assert!(self.side == ParsingSide::Value);
+        if self.side != ParsingSide::Value {
+            /* e.g. a struct or a map as a field, or a scalar as the whole input */
+            return Err(serde::de::Error::custom("unsupported structure for this format"))
         }
 
         match &*self.next_section()? {
@@ -320,8 +326,9 @@ impl<'u, 'de> serde::Deserializer<'de> for &'u mut CookieDeserializer<'de> {
 
     fn deserialize_f32<V>(self, visitor: V) -> Result<V::Value, Self::Error>
     where V: serde::de::Visitor<'de> {
-        #[cfg(debug_assertions)] {
-            assert!(self.side == ParsingSide::Value);
+        if self.side != ParsingSide::Value {
+            /* e.g. a struct or a map as a field, or a scalar as the whole input */
+            return Err(serde::de::Error::custom("unsupported structure for this format"))
         }
         let section = self.next_section()?;
         visitor.visit_f32(
@@ -332,8 +339,9 @@ impl<'u, 'de> serde::Deserializer<'de> for &'u mut CookieDeserializer<'de> {
     }
     fn deserialize_f64<V>(self, visitor: V) -> Result<V::Value, Self::Error>
     where V: serde::de::Visitor<'de> {
-        #[cfg(debug_assertions)] {
-            assert!(self.side == ParsingSide::Value);
+        if self.side != ParsingSide::Value {
+            /* e.g. a struct or a map as a field, or a scalar as the whole input */
+            return Err(serde::de::Error::custom("unsupported structure for this format"))
         }
         let section = self.next_section()?;
         visitor.visit_f64(
@@ -345,8 +353,9 @@ impl<'u, 'de> serde::Deserializer<'de> for &'u mut CookieDeserializer<'de> {
 
     fn deserialize_i8<V>(self, visitor: V) -> Result<V::Value, Self::Error>
     where V: serde::de::Visitor<'de> {
-        #[cfg(debug_assertions)] {
-            assert!(self.side == ParsingSide::Value);
+        if self.side != ParsingSide::Value {
+            /* e.g. a struct or a map as a field, or a scalar as the whole input */
+            return Err(serde::de::Error::custom("unsupported structure for this format"))
         }
         let section = self.next_section()?;
         visitor.visit_i8(
@@ -357,8 +366,9 @@ impl<'u, 'de> serde::Deserializer<'de> for &'u mut CookieDeserializer<'de> {
     }
     fn deserialize_i16<V>(self, visitor: V) -> Result<V::Value, Self::Error>
     where V: serde::de::Visitor<'de> {
-        #[cfg(debug_assertions)] {
-            assert!(self.side == ParsingSide::Value);
+        if self.side != ParsingSide::Value {
+            /* e.g. a struct or a map as a field, or a scalar as the whole input */
+            return Err(serde::de::Error::custom("unsupported structure for this format"))
         }
         let section = self.next_section()?;
         visitor.visit_i16(
@@ -369,8 +379,9 @@ impl<'u, 'de> serde::Deserializer<'de> for &'u mut CookieDeserializer<'de> {
     }
     fn deserialize_i32<V>(self, visitor: V) -> Result<V::Value, Self::Error>
     where V: serde::de::Visitor<'de> {
-        #[cfg(debug_assertions)] {
-            assert!(self.side == ParsingSide::Value);
+        if self.side != ParsingSide::Value {
+            /* e.g. a struct or a map as a field, or a scalar as the whole input */
+            return Err(serde::de::Error::custom("unsupported structure for this format"))
         }
         let section = self.next_section()?;
         visitor.visit_i32(
@@ -381,8 +392,9 @@ impl<'u, 'de> serde::Deserializer<'de> for &'u mut CookieDeserializer<'de> {
     }
     fn deserialize_i64<V>(self, visitor: V) -> Result<V::Value, Self::Error>
     where V: serde::de::Visitor<'de> {
-        #[cfg(debug_assertions)] {
-            assert!(self.side == ParsingSide::Value);
+        if self.side != ParsingSide::Value {
+            /* e.g. a struct or a map as a field, or a scalar as the whole input */
+            return Err(serde::de::Error::custom("unsupported structure for this format"))
         }
         let section = self.next_section()?;
         visitor.visit_i64(
@@ -394,8 +406,9 @@ impl<'u, 'de> serde::Deserializer<'de> for &'u mut CookieDeserializer<'de> {
 
     fn deserialize_u8<V>(self, visitor: V) -> Result<V::Value, Self::Error>
     where V: serde::de::Visitor<'de> {
-        #[cfg(debug_assertions)] {
-            assert!(self.side == ParsingSide::Value);
+        if self.side != ParsingSide::Value {
+            /* e.g. a struct or a map as a field, or a scalar as the whole input */
+            return Err(serde::de::Error::custom("unsupported structure for this format"))
         }
         let section = self.next_section()?;
         visitor.visit_u8(
@@ -406,8 +419,9 @@ impl<'u, 'de> serde::Deserializer<'de> for &'u mut CookieDeserializer<'de> {
     }
     fn deserialize_u16<V>(self, visitor: V) -> Result<V::Value, Self::Error>
     where V: serde::de::Visitor<'de> {
-        #[cfg(debug_assertions)] {
-            assert!(self.side == ParsingSide::Value);
+        if self.side != ParsingSide::Value {
+            /* e.g. a struct or a map as a field, or a scalar as the whole input */
+            return Err(serde::de::Error::custom("unsupported structure for this format"))
         }
         let section = self.next_section()?;
         visitor.visit_u16(
@@ -418,8 +432,9 @@ impl<'u, 'de> serde::Deserializer<'de> for &'u mut CookieDeserializer<'de> {
     }
     fn deserialize_u32<V>(self, visitor: V) -> Result<V::Value, Self::Error>
     where V: serde::de::Visitor<'de> {
-        #[cfg(debug_assertions)] {
-            assert!(self.side == ParsingSide::Value);
+        if self.side != ParsingSide::Value {
+            /* e.g. a struct or a map as a field, or a scalar as the whole input */
+            return Err(serde::de::Error::custom("unsupported structure for this format"))
         }
         let section = self.next_section()?;
         visitor.visit_u32(
@@ -430,8 +445,9 @@ impl<'u, 'de> serde::Deserializer<'de> for &'u mut CookieDeserializer<'de> {
     }
     fn deserialize_u64<V>(self, visitor: V) -> Result<V::Value, Self::Error>
     where V: serde::de::Visitor<'de> {
-        #[cfg(debug_assertions)] {
-            assert!(self.side == ParsingSide::Value);
+        if self.side != ParsingSide::Value {
+            /* e.g. a struct or a map as a field, or a scalar as the whole input */
+            return Err(serde::de::Error::custom("unsupported structure for this format"))
         }
         let section = self.next_section()?;
         visitor.visit_u64(
